@@ -32,6 +32,7 @@ Admissible(k, fs) ==
     /\ (~MultiLine(k) /\ k # "comment" => fs \cap {"blanks3", "blanks2", "trailing", "indent8"} = {})
     /\ (k = "comment" => fs \cap {"blanks3", "blanks2", "backslash", "crlf_escape"} = {})
     /\ ~({"blanks2", "indent8"} \subseteq fs)
+    /\ (~MultiLine(k) => "blank1" \notin fs)
     /\ (k = "raw_triple" => "crlf_escape" \notin fs)
 
 Init == case \in {[kind |-> k, feats |-> fs, place |-> p, len |-> n] :
